@@ -1,7 +1,13 @@
 #!/bin/sh
-# Builds every harness configuration once, offline, from files on disk only.
+# Builds every harness configuration once, offline, from files on disk only (the checks rebuild
+# incrementally from /repo's working tree on every run; this only warms the caches).
 set -e
 cd "$(dirname "$0")/harness"
 export CARGO_NET_OFFLINE=true
-cp /repo/Cargo.lock Cargo.lock 2>/dev/null || true
 cargo build --release --offline
+cargo build --profile checked --offline
+cargo build --release --offline --no-default-features --target-dir target-nostd
+RUSTFLAGS="-Zsanitizer=address -Cforce-frame-pointers=yes" cargo +nightly build --release --offline --target x86_64-unknown-linux-gnu --target-dir target-asan
+# Miri: the first `miri run` builds the interpreter's view of the crate; `nop` exits immediately
+MIRIFLAGS="-Zmiri-disable-isolation -Zmiri-tree-borrows" RUSTFLAGS="-Ctarget-feature=+avx512f,+avx512bw,+avx2,+bmi1,+ssse3" cargo +nightly miri run --offline --target-dir target-miri-all -- nop >/dev/null 2>&1 || true
+echo "setup done"
